@@ -79,7 +79,12 @@ func TestReplay(t *testing.T) {
 		}
 		return res
 	}
-	res := run(rf.Choices, false)
+	res := run(rf.Choices, os.Getenv("KSIM_REPLAY_LOG") != "")
+	if os.Getenv("KSIM_REPLAY_LOG") != "" {
+		for _, l := range res.LogLines {
+			fmt.Println(l)
+		}
+	}
 	v := hasSig(res, rf.Property, rf.Signature)
 	if v == nil {
 		fmt.Printf("NOT-REPRODUCED signature=%s (violations now: %d)\n", rf.Signature, len(res.Violations))
